@@ -212,6 +212,29 @@ func (g *G) genBody(f *am.Fun) {
 			}
 		}
 	}
+	// late numbering: everything up to the end of the entry block gets a name, so that the first
+	// number of the function (%0) is a later block or instruction
+	if len(f.Blocks) > 1 && g.cfg.UnnamedBias > 0 && g.chance("latenumbering", 1, 5) {
+		force := func(prefix string) string {
+			g.localN++
+			return prefix + itoa(g.localN)
+		}
+		for _, p := range f.Params {
+			if p.Name == "" {
+				p.Name = force("lp")
+			}
+		}
+		e := f.Blocks[0]
+		if e.Name == "" {
+			e.Name = force("entry")
+		}
+		for _, in := range append(append([]*am.Inst{}, e.Insts...), e.Term) {
+			if in != nil && in.HasValue() && in.Name == "" {
+				in.Name = force("lv")
+			}
+		}
+		g.feat("numbering/first-number-after-entry")
+	}
 }
 
 func contains(xs []int, x int) bool {
